@@ -117,6 +117,9 @@ func GateSpecs(c *Ctx, prop string) []GateSpec {
 			"(*share/dkg/rabin.DistKeyGenerator).Certified", "(*share/dkg/rabin.DistKeyGenerator).isInQUAL")
 		s = append(s,
 			GateSpec{Func: "(*share/dkg/pedersen.DistKeyGenerator).ProcessDeals", Sink: `mapupdate:\.validShares$`, NoRet: true},
+			// a received deal is marked Success only behind all its checks (incl. the resharing consistency check)
+			GateSpec{Func: "(*share/dkg/pedersen.DistKeyGenerator).ProcessDeals", Sink: `call:StatusMatrix\)\.Set$@DealerIndex.*ShareIndex, 0:Status\)$`, NoRet: true},
+			GateSpec{Func: "(*share/dkg/pedersen.DistKeyGenerator).ProcessJustifications", Sink: `call:StatusMatrix\)\.Set$@DealerIndex.*ShareIndex, 0:Status\)$`, NoRet: true},
 			GateSpec{Func: "(*share/dkg/pedersen.DistKeyGenerator).ProcessJustifications", Sink: `mapupdate:\.validShares$`, NoRet: true},
 			GateSpec{Func: "(*share/dkg/pedersen.set).Push", Sink: `mapupdate:\.vals$`, NoRet: true},
 			GateSpec{Func: "(*share/dkg/pedersen.DistKeyGenerator).computeDKGResult", Sink: `call:\(kyber\.Scalar\)\.Add$`, NoRet: true},
